@@ -3,8 +3,10 @@
  *   x_c12 guard|exact [groups]
  *
  * Calls the public state primitives, the INTERNAL masked-word / masked-state /
- * masked-key toolkit, the masked permutations and a few one-shot modes with
- * every buffer allocated at exactly its documented size:
+ * masked-key toolkit, the masked permutations, a few one-shot modes and the
+ * incremental AEAD functions (init / reinit / start / encrypt_block /
+ * decrypt_block / finalize / free, group "inc-modes") with every buffer
+ * allocated at exactly its documented size:
  *
  *   guard   each object lies between two PROT_NONE pages; every call is made
  *           twice, once with the object's END against the upper guard page
@@ -23,6 +25,7 @@
 #include <stdlib.h>
 #include <string.h>
 #include <stdint.h>
+#include <stddef.h>
 #include <signal.h>
 #include <unistd.h>
 #include <sys/mman.h>
@@ -373,6 +376,70 @@ static void group_masked_modes(void)
     }
 }
 
+/* ---- D. incremental AEAD: every argument an exact block (state object of exactly sizeof(state), key of exactly 16 / 20 bytes,
+ *      16-byte nonce, AD, input and output chunks of exactly the lengths passed, 16-byte tag) */
+typedef void (*f_iinit)(void *, const unsigned char *, const unsigned char *);
+typedef void (*f_istart)(void *, const unsigned char *, size_t);
+typedef void (*f_iblock)(void *, const unsigned char *, unsigned char *, size_t);
+typedef void (*f_ifin)(void *, unsigned char *);
+typedef int (*f_idfin)(void *, const unsigned char *);
+typedef void (*f_ifree)(void *);
+struct incfns { const char *name; size_t objsize; unsigned keylen; size_t nonce_off; f_iinit init, reinit; f_istart start; f_iblock eb, db; f_ifin ef; f_idfin df; f_ifree fr; };
+
+static void inc_one(const struct incfns *F, unsigned mlen, unsigned adlen, unsigned split)
+{
+    void *st = galloc_aligned(F->objsize, 0xc1);
+    unsigned char *key = galloc(F->keylen, 0x91), *npub = galloc(16, 0x92), *ad = galloc(adlen, 0x94);
+    unsigned char *m1 = galloc(split, 0x93), *m2 = galloc(mlen - split, 0x97), *c1 = galloc(split, 0x95), *c2 = galloc(mlen - split, 0x98);
+    unsigned char *tag = galloc(16, 0x99), *key2 = galloc(F->keylen, 0x9a), *npub2 = galloc(16, 0x9b);
+    WHAT("%s_aead_init keylen=%u", F->name, F->keylen); F->init(st, npub, key);
+    WHAT("%s_aead_start adlen=%u", F->name, adlen); F->start(st, adlen ? ad : 0, adlen);
+    WHAT("%s_aead_encrypt_block len=%u (first of %u)", F->name, split, mlen); F->eb(st, m1, c1, split);
+    WHAT("%s_aead_encrypt_block len=%u (after %u)", F->name, mlen - split, split); F->eb(st, m2, c2, mlen - split);
+    WHAT("%s_aead_encrypt_finalize after mlen=%u", F->name, mlen); F->ef(st, tag);
+    /* next packet of the session: the object's own nonce, a new key; decrypt in place */
+    WHAT("%s_aead_reinit npub=own k=given", F->name); F->reinit(st, (unsigned char *)st + F->nonce_off, key2);
+    WHAT("%s_aead_start adlen=%u (second packet)", F->name, adlen); F->start(st, ad, adlen);
+    WHAT("%s_aead_decrypt_block len=%u in place", F->name, split); F->db(st, c1, c1, split);
+    WHAT("%s_aead_decrypt_block len=%u (after %u)", F->name, mlen - split, split); F->db(st, c2, m2, mlen - split);
+    WHAT("%s_aead_decrypt_finalize (wrong tag)", F->name); (void)F->df(st, tag);
+    /* NULL forms, then a given nonce and key again */
+    WHAT("%s_aead_reinit npub=NULL k=NULL", F->name); F->reinit(st, 0, 0);
+    WHAT("%s_aead_reinit npub=given k=NULL", F->name); F->reinit(st, npub2, 0);
+    WHAT("%s_aead_reinit npub=NULL k=given", F->name); F->reinit(st, 0, key2);
+    WHAT("%s_aead_reinit npub=given k=given", F->name); F->reinit(st, npub2, key2);
+    WHAT("%s_aead_start adlen=%u (third packet)", F->name, adlen); F->start(st, ad, adlen);
+    WHAT("%s_aead_encrypt_block len=%u in place", F->name, split); F->eb(st, m1, m1, split);
+    WHAT("%s_aead_encrypt_finalize (third packet)", F->name); F->ef(st, tag);
+    WHAT("%s_aead_free", F->name); F->fr(st);
+    g_calls += 20; gfree_all();
+}
+
+static void group_inc_modes(void)
+{
+    static const struct incfns F[3] = {
+        { "ascon128", sizeof(ascon128_state_t), 16, offsetof(ascon128_state_t, nonce), (f_iinit)ascon128_aead_init, (f_iinit)ascon128_aead_reinit, (f_istart)ascon128_aead_start,
+          (f_iblock)ascon128_aead_encrypt_block, (f_iblock)ascon128_aead_decrypt_block, (f_ifin)ascon128_aead_encrypt_finalize, (f_idfin)ascon128_aead_decrypt_finalize, (f_ifree)ascon128_aead_free },
+        { "ascon128a", sizeof(ascon128a_state_t), 16, offsetof(ascon128a_state_t, nonce), (f_iinit)ascon128a_aead_init, (f_iinit)ascon128a_aead_reinit, (f_istart)ascon128a_aead_start,
+          (f_iblock)ascon128a_aead_encrypt_block, (f_iblock)ascon128a_aead_decrypt_block, (f_ifin)ascon128a_aead_encrypt_finalize, (f_idfin)ascon128a_aead_decrypt_finalize, (f_ifree)ascon128a_aead_free },
+        { "ascon80pq", sizeof(ascon80pq_state_t), 20, offsetof(ascon80pq_state_t, nonce), (f_iinit)ascon80pq_aead_init, (f_iinit)ascon80pq_aead_reinit, (f_istart)ascon80pq_aead_start,
+          (f_iblock)ascon80pq_aead_encrypt_block, (f_iblock)ascon80pq_aead_decrypt_block, (f_ifin)ascon80pq_aead_encrypt_finalize, (f_idfin)ascon80pq_aead_decrypt_finalize, (f_ifree)ascon80pq_aead_free } };
+    size_t i, j; int a;
+    g_group = "inc-modes";
+    for (a = 0; a < 3; ++a) {
+        for (i = 0; i < NLENS; ++i) {
+            for (j = (i + (size_t)a) % 3; j < NLENS; j += 3) {
+                unsigned mlen = g_lens[i], adlen = g_lens[j];
+                /* the split point walks over the block boundaries: 0, 1, rate-1 .. and the whole message */
+                unsigned split = mlen == 0 ? 0 : (unsigned)((i * 7 + j * 3 + (size_t)a) % (mlen + 1));
+                inc_one(&F[a], mlen, adlen, split);
+            }
+        }
+        { void *st = galloc_aligned(F[a].objsize, 0xc1); WHAT("%s_aead_free(NULL), free of a fresh object", F[a].name); F[a].fr(0);
+          F[a].init(st, 0, 0); F[a].fr(st); g_calls += 3; gfree_all(); }
+    }
+}
+
 static int has_group(const char *groups, const char *name)
 {
     size_t n = strlen(name);
@@ -389,7 +456,7 @@ static int has_group(const char *groups, const char *name)
 
 int main(int argc, char **argv)
 {
-    const char *groups = argc > 2 ? argv[2] : "state,masked-word,masked-state,modes,masked-modes";
+    const char *groups = argc > 2 ? argv[2] : "state,masked-word,masked-state,modes,masked-modes,inc-modes";
     int pass;
     if (argc < 2) { fprintf(stderr, "usage: x_c12 guard|exact [groups]\n"); return 2; }
     g_guard = !strcmp(argv[1], "guard");
@@ -411,6 +478,7 @@ int main(int argc, char **argv)
         RUN("masked-state", group_masked_state)
         RUN("modes", group_modes)
         RUN("masked-modes", group_masked_modes)
+        RUN("inc-modes", group_inc_modes)
     }
     return 0;
 }
